@@ -4,7 +4,10 @@
     Part 2: RateLimiter::allow and AtomicPosition::allow are [tb_step] on every state reachable
             from `new` (no panic site reachable, no cast truncates).
     Part 3: the statements of props/C05.v.
-    Part 4: a bar in front of a target: bounded staleness, nothing lost. *)
+    Part 4: a stand-alone bar in front of a target: bounded staleness, nothing lost.
+    Parts 5-7 (system level, any configuration: totality, window bound and liveness for painted
+    frames, frame age for MultiProgress members) are in LimiterSysProofs.v; the agreement with the
+    limiters of model/Sys.v is in LimiterAgree.v. *)
 From IndModel Require Import Base Limiter.
 From IndGen Require Import Constants.
 From Coq Require Import NArith ZArith Lia List Bool ZifyBool ZifyNat ZifyN.
@@ -631,9 +634,6 @@ Definition rel (st : N) (o : apop) : tbop :=
 
 Lemma rel_time st o : tbop_time (rel st o) = apop_time o - st.
 Proof. destruct o; reflexivity. Qed.
-
-Definition ap_times_ok (st : N) (ops : list apop) : Prop :=
-  forall o, In o ops -> apop_time o < st + U64.
 
 Lemma nondec_rel_mono ops : forall lo st, st <= lo -> nondec lo (map apop_time ops) ->
   mono (lo - st) (map (rel st) ops).
